@@ -918,6 +918,9 @@ func inlinedView(P *Prog) (*Prog, []string) {
 	return last, notes
 }
 
+// quietView: no progress lines (seeded self-test).
+var quietView bool
+
 // isOpenFinding: the obligation is an open known finding of this property.
 func isOpenFinding(findings []Finding, prop string, o *Obl) bool {
 	for _, f := range findings {
@@ -1022,11 +1025,13 @@ func evaluate(P *Prog, prop, tier string, spec *propSpec, findings []Finding) (*
 	}
 	info["available"] = true
 	info["rules_decided_on_inlined_view"] = rescued
-	for _, n := range notes {
-		fmt.Println("inlined view: " + n)
-	}
-	if len(rescued) > 0 {
-		fmt.Println("inlined view: decided there: " + strings.Join(rescued, ", "))
+	if !quietView {
+		for _, n := range notes {
+			fmt.Println("inlined view: " + n)
+		}
+		if len(rescued) > 0 {
+			fmt.Println("inlined view: decided there: " + strings.Join(rescued, ", "))
+		}
 	}
 	return c, info
 }
